@@ -842,7 +842,10 @@ class SparseArray:
                     rows = [rows[i] for i in default_range(m, len(rows))]
                     if n.__class__ is slice:
                         if n == open_slice:
-                            for i in rows: i[:] = value
+                            if vd == 2:
+                                for i, j in zip(rows, value): i[:] = j
+                            else:
+                                for i in rows: i[:] = value
                             return
                         else:
                             n = default_range(n, self.vector_size)
@@ -930,6 +933,7 @@ class SparseArray:
                         else:
                             raise IndexError(f'column index can be at most 1-d, not {nd}-d')
                     elif dtype is bool:
+                        if get_ndim(n) == 0: n = [n] * len(m)
                         if vd == 0:
                             if value:
                                 for i, j in zip(m, n): 
@@ -2597,9 +2601,9 @@ class SparseLogicalVector:
     def has_negatives(self):
         return False
     
-    def negative_keys(self): set()
+    def negative_keys(self): return set()
     
-    def negative_index(self): [],
+    def negative_index(self): return [],
     
     def nonzero_index(self):
         return [*self.set],
